@@ -31,12 +31,38 @@ def _confirm_idioms(prog):
     _util.STATE_PROPERTIES.pop('is_closed', None)
 
 
-def run_property(pid, tier, root=None):
+_ANCHOR_FILES = {}
+
+
+def _anchor_files(pid):
+  if not _ANCHOR_FILES:
+    for l in open(os.path.join(report.VERIF, 'properties.jsonl')):
+      l = l.strip()
+      if l:
+        d = json.loads(l)
+        _ANCHOR_FILES[d['id']] = list(d.get('anchors', {}).get('files', []))
+  return _ANCHOR_FILES.get(pid, [])
+
+
+def _generic_rules(ctx, pid):
+  """Rules every property shares, instantiated on the modules the property is anchored in."""
+  from . import util as _util
+  ctx.rule('%s.S1' % pid, 'per-instance state: no object created in a class body of the anchored modules is changed in place through self '
+                          '(it would be shared by every connection / balancer / server set of the process)')
+  _util.instance_state(ctx, '%s.S1' % pid, _anchor_files(pid))
+  ctx.rule('%s.S2' % pid, 'no closure created inside a loop of the anchored modules reads a variable of that loop late (it would act on a later request / frame / member)')
+  _util.late_binding(ctx, '%s.S2' % pid, _anchor_files(pid))
+  ctx.rule('%s.S3' % pid, 'locks, events and queues constructed in the anchored modules are gevent primitives (thread primitives neither exclude nor yield between greenlets)')
+  _util.greenlet_primitives(ctx, '%s.S3' % pid, _anchor_files(pid))
+
+
+def run_property(pid, tier, root=None, prog=None):
   mod = importlib.import_module('sa.props.%s' % pid.lower())
-  ctx = report.Ctx(pid, tier, Program(root))
+  ctx = report.Ctx(pid, tier, prog if prog is not None else Program(root))
   _confirm_idioms(ctx.prog)
   try:
     mod.check(ctx)
+    _generic_rules(ctx, pid)
   except AnalysisError:
     raise
   except (IndexError, KeyError, AttributeError, TypeError, ValueError, AssertionError) as e:
@@ -98,6 +124,35 @@ def analyse_variant(pid, patch, tier='quick'):
         if f.key not in known:
           print('    %s [%s] %s -- %s' % (f.where, f.rule, f.construct, f.what[:400]))
     return 'applied', [f.key for f in ctx.findings if f.key not in known]
+  finally:
+    shutil.rmtree(tmp, ignore_errors=True)
+
+
+def analyse_variant_all(patch, pids=None, tier='quick'):
+  """All property checks on one variant, the program model built once (self-test tooling only; the registered
+  commands analyse one property per process).  -> {pid: (status, keys)}"""
+  pids = pids or PIDS
+  tmp = tempfile.mkdtemp(prefix='sa_variant_')
+  out = {}
+  try:
+    shutil.copytree(os.path.join(repo_root(), 'scales'), os.path.join(tmp, 'scales'))
+    r = subprocess.run(['git', 'apply', '--whitespace=nowarn', patch], cwd=tmp, stdout=subprocess.PIPE, stderr=subprocess.PIPE)
+    if r.returncode != 0:
+      return dict((p, ('skipped', [])) for p in pids)
+    try:
+      prog = Program(tmp)
+    except AnalysisError as e:
+      return dict((p, ('analysis-error: %s' % e, [])) for p in pids)
+    for pid in pids:
+      known = set(k['key'] for k in report.load_known() if k.get('property') == pid and k.get('status') == 'known')
+      try:
+        ctx = run_property(pid, tier, tmp, prog=prog)
+        out[pid] = ('applied', [f.key for f in ctx.findings if f.key not in known])
+      except AnalysisError as e:
+        out[pid] = ('analysis-error: %s' % e, [])
+      except Exception as e:
+        out[pid] = ('error %r' % e, [])
+    return out
   finally:
     shutil.rmtree(tmp, ignore_errors=True)
 
